@@ -149,7 +149,10 @@ def fill_ops(run, n):
     from mpf.core.rgb_color import RGBColor
     for at, which, c, fade in run.case.get("fill", []):
         if at == n:
-            run.vm.machine.lights[FILL[which][0]].color(RGBColor(c), fade_ms=fade * 125, key="f")
+            try:
+                run.vm.machine.lights[FILL[which][0]].color(RGBColor(c), fade_ms=fade * 125, key="f")
+            except Exception as e:  # noqa: an exception out of the real code is an observation
+                run.fail.append(("crash-color", {"light": FILL[which][0], "t": run.tick(), "error": repr(e)}))
             run.fill_busy = max(getattr(run, "fill_busy", -1), run.tick() + fade)
 
 
